@@ -6,39 +6,16 @@ import (
 	"crypto/ed25519"
 	"encoding/binary"
 	"github.com/brutella/hc/db"
-	"io"
 
 	xchacha "golang.org/x/crypto/chacha20poly1305"
 	"golang.org/x/crypto/curve25519"
-	xhkdf "golang.org/x/crypto/hkdf"
 
-	"crypto/sha512"
 
 	"github.com/brutella/hc/hap/pair"
 	"github.com/brutella/hc/util"
 
 	"hcverif/verif"
 )
-
-func rcHKDF(secret []byte, salt, info string) []byte {
-	r := xhkdf.New(sha512.New, secret, []byte(salt), []byte(info))
-	k := make([]byte, 32)
-	io.ReadFull(r, k)
-	return k
-}
-
-func rcNonce(label string) []byte { return append(make([]byte, 4), []byte(label)...) }
-
-func rcSeal(key []byte, label string, pt []byte) []byte {
-	a, _ := xchacha.New(key)
-	return a.Seal(nil, rcNonce(label), pt, nil)
-}
-
-func rcOpen(key []byte, label string, ct []byte) ([]byte, bool) {
-	a, _ := xchacha.New(key)
-	pt, err := a.Open(nil, rcNonce(label), ct, nil)
-	return pt, err == nil
-}
 
 func rcParse(b []byte) util.Container {
 	c, _ := util.NewTLV8ContainerFromReader(bytes.NewBuffer(append([]byte{}, b...)))
@@ -76,6 +53,23 @@ func Harness_C04_q_pair_verify_talk() {
 	case 2:
 		verif.Fact("storage", "unrelated pairing")
 		w.db.SaveEntity(db.NewEntity("someone-else", stalePub, nil))
+	}
+
+	// what happened on this connection before: nothing, a pair-setup attempt with a wrong
+	// setup code (answered with an error), or a message out of order
+	switch verif.Choice("earlier-attempt", 3) {
+	case 1:
+		verif.Fact("earlier-attempt", "wrong setup code")
+		r0, _ := eePost(w.setup, "/pair-setup", remote, eeTLV(pair.TagPairingMethod, byte(0), pair.TagSequence, byte(1)))
+		if t := r0.tlv(); t != nil && len(t.GetBytes(pair.TagSalt)) == 16 && len(t.GetBytes(pair.TagPublicKey)) > 0 {
+			wrong := c04Pin("wrong-pin")
+			verif.Assume(wrong != w.dev.pin)
+			wc := rcSRPClient(verif.Bytes("wrong-client-a", 32), wrong, t.GetBytes(pair.TagSalt), t.GetBytes(pair.TagPublicKey))
+			eePost(w.setup, "/pair-setup", remote, eeTLV(pair.TagSequence, byte(3), pair.TagPublicKey, wc.A, pair.TagProof, wc.M1))
+		}
+	case 2:
+		verif.Fact("earlier-attempt", "key exchange out of order")
+		eePost(w.setup, "/pair-setup", remote, eeTLV(pair.TagSequence, byte(5), pair.TagEncryptedData, verif.Bytes("junk-enc", 24)))
 	}
 
 	// ---- pair-setup ----
